@@ -390,9 +390,88 @@ Proof.
   exists r. cbn [Nat.add]. erewrite run_ops_step; [| lia | exact Hs]. reflexivity.
 Qed.
 
+(* ---- put v into / after / before field f, and a local variable ---- *)
+Lemma tbl_put_field md : assocZ (u8 (b 89) * 256 + u8 (b (16 * pcode md + 6))) BI_OPCODES = Some (2, "BiOpcode", "AssignModeFieldOpcode", pname md).
+Proof. destruct md; vm_compute; reflexivity. Qed.
+Lemma tbl_put_loc md : assocZ (u8 (b 89) * 256 + u8 (b (16 * pcode md + 5))) BI_OPCODES = Some (2, "BiOpcode", "AssignModeLocalVarOpcode", pname md).
+Proof. destruct md; vm_compute; reflexivity. Qed.
+
+Lemma exec_put_field en props md f v : wf_s en (SPutField md f v) -> exec_s_spec en props (SPutField md f v).
+Proof.
+  intros (Hf & Hv) d off len a fuel r m [Hag Hpr] Hst Hc Hoff Hlen.
+  cbn [compile_s ninstr_s] in *. rewrite !zlen_app in *. change (zlen [b 89; b (16 * pcode md + 6)]) with 2 in *.
+  apply code_at_app in Hc. destruct Hc as [Hcv Hc]. apply code_at_app in Hc. destruct Hc as [Hcf Hcs].
+  pose proof (zlen_nonneg (compile_e f)). pose proof (zlen_nonneg (compile_e v)).
+  replace (ninstr v + (ninstr f + 1) + fuel)%nat with (ninstr v + (ninstr f + (1 + fuel)))%nat by lia.
+  destruct (exec_e en v Hv d off len a (ninstr f + (1 + fuel))%nat r m Hag Hcv ltac:(lia) ltac:(lia)) as [r1 E1]. rewrite E1.
+  set (m1 := after_e en a v m). set (pf := a + zlen (compile_e v)) in *.
+  pose proof (agrees_after_e en a v m Hag) as Hag1. fold m1 in Hag1.
+  destruct (exec_e en f Hf d off len pf (1 + fuel)%nat r1 m1 Hag1 Hcf ltac:(subst pf; lia) ltac:(subst pf; lia)) as [r2 E2]. rewrite E2.
+  set (m2 := after_e en pf f m1). set (ps := pf + zlen (compile_e f)) in *.
+  assert (Hs : step d ps r2 m2 = Ok (ps + 2, r2, after_s en props a (SPutField md f v) m)).
+  { eapply step_bi with (proc0 := "AssignModeFieldOpcode") (attr0 := "before") (oc := OAssignModeField (pname md));
+      [exact Hcs | reflexivity | apply tbl_put_field | destruct md; reflexivity |].
+    cbn [process]. unfold pop. subst m2. rewrite after_e_stack. cbn [bind].
+    unfold with_stack at 1. cbn [m_stack]. subst m1. rewrite after_e_stack. cbn [bind]. f_equal.
+    unfold after_s, add_stmt, with_stack. cbn [reify_s globals_s].
+    apply mstate_eq; cbn [m_stack m_ctx m_fn f_globals f_name f_pos f_params f_locals f_stmts f_is_method set_stmts].
+    - rewrite Hst. reflexivity.
+    - destruct m as [? [? ? ? ? ? ? ?] ?]; reflexivity.
+    - rewrite !after_e_globals. rewrite add_globals_app. reflexivity.
+    - destruct m as [? [? ? ? ? ? ? ?] ?]; reflexivity.
+    - destruct m as [? [? ? ? ? ? ? ?] ?]; reflexivity.
+    - destruct m as [? [? ? ? ? ? ? ?] ?]; reflexivity.
+    - destruct m as [? [? ? ? ? ? ? ?] ?]; reflexivity.
+    - subst ps pf. destruct m as [? [? ? ? ? ? ? ?] ?]; reflexivity.
+    - destruct m as [? [? ? ? ? ? ? ?] ?]; reflexivity. }
+  exists r2. cbn [Nat.add]. erewrite run_ops_step; [| subst ps pf; lia | exact Hs]. f_equal. subst ps pf. lia.
+Qed.
+
+Lemma exec_put_loc en props md i v : wf_s en (SPutLoc md i v) -> exec_s_spec en props (SPutLoc md i v).
+Proof.
+  intros (Hi & H256 & Hv) d off len a fuel r m [Hag Hpr] Hst Hc Hoff Hlen.
+  cbn [compile_s ninstr_s] in *. rewrite !zlen_app in *. change (zlen [b 89; b (16 * pcode md + 5)]) with 2 in *.
+  apply code_at_app in Hc. destruct Hc as [Hcv Hc]. apply code_at_app in Hc. destruct Hc as [Hci Hcs].
+  pose proof (zlen_nonneg (compile_e v)). pose proof (zlen_nonneg (compile_int (scaled i))). pose proof (scaled_nonneg i).
+  replace (ninstr v + 2 + fuel)%nat with (ninstr v + (1 + (1 + fuel)))%nat by lia.
+  destruct (exec_e en v Hv d off len a (1 + (1 + fuel))%nat r m Hag Hcv ltac:(lia) ltac:(lia)) as [r1 E1]. rewrite E1.
+  set (m1 := after_e en a v m). set (pi := a + zlen (compile_e v)) in *.
+  pose proof (agrees_after_e en a v m Hag) as Hag1. fold m1 in Hag1.
+  assert (Hwi : wf_e en (EInt (scaled i))) by (cbn [wf_e]; lia).
+  destruct (exec_int en (scaled i) Hwi d off len pi (1 + fuel)%nat r1 m1 Hag1 Hci ltac:(subst pi; lia) ltac:(subst pi; cbn [compile_e]; lia)) as [r2 E2].
+  cbn [ninstr compile_e] in E2. rewrite E2.
+  set (m2 := after_e en pi (EInt (scaled i)) m1). set (ps := pi + zlen (compile_int (scaled i))) in *.
+  pose proof (agrees_after_e en pi (EInt (scaled i)) m1 Hag1) as Hag2. fold m2 in Hag2.
+  assert (Hs : step d ps r2 m2 = Ok (ps + 2, r2, after_s en props a (SPutLoc md i v) m)).
+  { eapply step_bi with (proc0 := "AssignModeFieldOpcode") (attr0 := "before") (oc := OAssignModeLocal (pname md));
+      [exact Hcs | reflexivity | apply tbl_put_loc | destruct md; reflexivity |].
+    cbn [process]. unfold pop. subst m2. rewrite after_e_stack. cbn [bind reify_e is_const negb].
+    unfold int_name. cbn [name_of]. unfold scaled in *.
+    replace (Z.of_nat i * 6) with (Z.of_nat (i * 6)) by lia. rewrite int_of_str_small by lia. cbn [of_option bind].
+    replace (Z.of_nat (i * 6)) with (Z.of_nat i * 6) by lia.
+    set (mm := with_stack (after_e en pi (EInt (Z.of_nat i * 6)) m1) (m_stack m1)).
+    assert (Hb : c_bpc (m_ctx mm) = 6) by (subst mm m1; unfold agrees in Hag2; destruct m as [? ? ?]; tauto).
+    rewrite (scale_six mm (Z.of_nat i) Hb) by lia.
+    assert (Hl : f_locals (m_fn mm) = e_locals en) by (subst mm m1; unfold agrees in Hag2; destruct m as [? [? ? ? ? ? ? ?] ?]; tauto).
+    rewrite Hl, (index_nth _ i (Leaf KLocal "" 0 true)) by exact Hi. cbn [of_option bind].
+    subst mm. unfold with_stack at 1. cbn [m_stack]. subst m1. rewrite after_e_stack. cbn [bind]. apply f_equal.
+    unfold after_s, add_stmt, with_stack. cbn [reify_s globals_s].
+    apply mstate_eq; cbn [m_stack m_ctx m_fn f_globals f_name f_pos f_params f_locals f_stmts f_is_method set_stmts].
+    - rewrite Hst. reflexivity.
+    - destruct m as [? [? ? ? ? ? ? ?] ?]; reflexivity.
+    - rewrite !after_e_globals. cbn [globals_e add_globals fold_left]. reflexivity.
+    - destruct m as [? [? ? ? ? ? ? ?] ?]; reflexivity.
+    - destruct m as [? [? ? ? ? ? ? ?] ?]; reflexivity.
+    - destruct m as [? [? ? ? ? ? ? ?] ?]; reflexivity.
+    - destruct m as [? [? ? ? ? ? ? ?] ?]; reflexivity.
+    - subst ps pi. unfold scaled. destruct m as [? [? ? ? ? ? ? ?] ?]; reflexivity.
+    - destruct m as [? [? ? ? ? ? ? ?] ?]; reflexivity. }
+  exists r2. cbn [Nat.add]. erewrite run_ops_step; [| subst ps pi; lia | exact Hs]. f_equal. subst ps pi. lia.
+Qed.
+
 Theorem exec_s en props s : wf_s en s -> exec_s_spec en props s.
 Proof.
-  destruct s as [t e|f args|f args|f pid o v|k i v|n o v|pid it mn v|]; intros Hwf.
+  destruct s as [t e|f args|f args|f pid o v|k i v|n o v|pid it mn v| |md f v|md i v]; intros Hwf.
   - apply exec_set; exact Hwf.
   - apply (exec_call_stmt en props false f args); exact Hwf.
   - apply (exec_call_stmt en props true f args); exact Hwf.
@@ -401,6 +480,8 @@ Proof.
   - apply exec_set_acc; exact Hwf.
   - apply exec_set_menu; exact Hwf.
   - apply exec_exit.
+  - apply exec_put_field; exact Hwf.
+  - apply exec_put_loc; exact Hwf.
 Qed.
 
 (* ---- a sequence of statements ---- *)
@@ -437,7 +518,7 @@ Qed.
 (* ---- the control-flow passes do nothing on statements that are assignments and calls ---- *)
 Definition plain_stmt (st : node) : bool :=
   match st with
-  | Stmt _ (Binary _ _ _ _) | Stmt _ (Call _ _ _ _ _ _) => true
+  | Stmt _ (Binary _ _ _ _) | Stmt _ (Call _ _ _ _ _ _) | Stmt _ (SpAssign _ _ _ _) => true
   | _ => false
   end.
 
